@@ -539,9 +539,14 @@ def run(ctx):
     jobs = build_jobs(ctx, names)
     fam = families(table)
 
+    fresh_parts = {}                 # (parser, file, argkey) -> parts of the seed-0 fresh interpreter (per-field digests of data)
+
     def fresh(args):
         j, seed = args
-        return worker("fresh", {"parser": j["parser"], "file": j["file"], "args": j["args"]}, hashseed=seed, timeout=300)
+        r = worker("fresh", {"parser": j["parser"], "file": j["file"], "args": j["args"]}, hashseed=seed, timeout=300)
+        if str(seed) == "0" and isinstance(r, dict) and "parts" in r:
+            fresh_parts[(j["parser"], j["file"], json.dumps(j["args"], sort_keys=True))] = r["parts"]
+        return r
 
     t0 = time.time()
     res0 = pmap(fresh, [(j, "0") for j in jobs])
@@ -874,6 +879,7 @@ def run(ctx):
                     d[k] = f"{j['parser']}({j['fname']}{'' if not j['args'] else ', ' + j['argkey']})"
             return d
 
+        nav_hits = []
         shard_terms, shard_meta = [], []
         for batch, res in zip(batches, results):
             if isinstance(res, dict):
@@ -930,7 +936,20 @@ def run(ctx):
                 if code == 3:
                     reparse_diff.add(res[k]["parser"])
                     continue
+                jx_ = next((j for kind, i, j in h if i == res[k]["i"] and j is not None), None)
+                if code == 1 and jx_ is not None and nav_crossover_class(corpus[jx_], res[k], fresh_parts):
+                    nav_hits.append((label, h, res[k], jx_))
+                    continue
                 unexplained.append((code, label, h, res[k], batch, owner[k]))
+        if nav_hits:
+            label, h, ob, jx_ = nav_hits[0]
+            ctx.count("quirk:nav_week_crossover_inplace", len(nav_hits))
+            ctx.finding("c16_nav_week_crossover_inplace",
+                        "rinex2_nav / rinex212_nav / rinex3_nav: the week-crossover step changes the cached gps_ws arrays of the Time object in place, so every further parse of the same file in one process shifts toe / transmission_time by another week",
+                        {"kind": "history", "history": label_text(label), "ops": ops_to_worker(h, corpus),
+                         "minimal_history": f"parsers.parse_file({corpus[jx_]['parser']!r}, {corpus[jx_]['file']!r}) twice in one interpreter: data['toe'].gps_ws.week differs",
+                         "observed_fields": {k_: v_ for k_, v_ in (ob.get("parts", {}).get("data_keys") or {}).items() if k_ in ("toe", "transmission_time")},
+                         "jobs": sorted({f"{corpus[x[3]]['parser']}({corpus[x[3]]['fname']})" for x in nav_hits})})
 
         # isolate: re-run the single history in its own interpreter; keep the smaller failing input when it reproduces
         fresh_of = {(j["parser"], j["file"], j["argkey"]): j for j in corpus}
@@ -1300,6 +1319,22 @@ def resolution_histories(ctx, table, corpus):
         ctx.violation(rep, what=(f"plug-in resolution depends on the history: {target} answers {res[i]} "
                                  + (f"after {culprit}" if culprit else f"in history {label}")
                                  + f", but {alone[0] if isinstance(alone, list) else alone} alone in a fresh interpreter"))
+
+
+NAV_PARSERS = {"rinex2_nav", "rinex212_nav", "rinex3_nav", "rinex_nav"}
+
+
+def nav_crossover_class(job, ob, fresh_parts):
+    """Is this mismatch exactly the class c16_nav_week_crossover_inplace: a RINEX navigation parser, everything equal to the
+    fresh interpreter except the fields toe / transmission_time of data?"""
+    if job["parser"] not in NAV_PARSERS or "parts" not in ob:
+        return False
+    ref = fresh_parts.get((job["parser"], job["file"], job["argkey"]))
+    if not ref or "data_keys" not in ref or "data_keys" not in ob["parts"]:
+        return False
+    a, b_ = ref["data_keys"], ob["parts"]["data_keys"]
+    diff = {k for k in set(a) | set(b_) if a.get(k) != b_.get(k)}
+    return bool(diff) and diff <= {"toe", "transmission_time"} and ref.get("meta") == ob["parts"].get("meta")
 
 
 # ----------------------------------------------------------------------------------------------- directed: outcomes, rewrites
